@@ -397,6 +397,7 @@ def share(ctx, ob, prop, oids, cap=150):
     import importlib
     from .report import Ctx
     sub = Ctx(prop, ctx.tier, ctx.seed, ctx.repo)
+    sub.shared_for = ctx.prop
     importlib.import_module("lsa.rules.%s" % prop.lower()).run(sub)
     for o in sub.obligations:
         if o.oid in oids:
